@@ -191,12 +191,41 @@ func runDefsStep(d **document.Document, op Op, i int) string {
 		}
 		return errRet(t.CreateCustomTableStyle(op.Str("id"), op.Str("id")+" name", nil, nil, true))
 	case "AddListItem":
-		doc.AddListItem(tok, &document.ListConfig{Type: document.ListType(op.Str("t")), BulletSymbol: document.BulletTypeDot, StartNumber: 1})
+		lt := document.ListType(op.Str("t"))
+		switch (int(seed) + i) % 3 {
+		case 0:
+			doc.AddListItem(tok, &document.ListConfig{Type: lt, BulletSymbol: document.BulletTypeDot, StartNumber: 1})
+		case 1:
+			if lt == document.ListTypeBullet {
+				doc.AddBulletList(tok, 0, document.BulletTypeDot)
+			} else {
+				doc.AddNumberedList(tok, 0, lt)
+			}
+		default:
+			return errRet(doc.CreateMultiLevelList([]document.ListItem{{Text: tok, Level: 0, Type: lt, BulletSymbol: document.BulletTypeDot, StartNumber: 1}}))
+		}
 	case "AddNote":
 		if op.Str("k") == "fn" {
+			if (int(seed)+i)%2 == 1 {
+				p := doc.AddParagraph("fnote" + tok)
+				if len(p.Runs) == 0 {
+					return "err"
+				}
+				return errRet(doc.AddFootnoteToRun(&p.Runs[0], "text of "+tok))
+			}
 			return errRet(doc.AddFootnote("fnote"+tok, "text of "+tok))
 		}
 		return errRet(doc.AddEndnote("enote"+tok, "text of "+tok))
+	case "RenderTemplate":
+		te := document.NewTemplateEngine()
+		if _, err := te.LoadTemplateFromDocument("t"+tok, doc); err != nil {
+			return "err"
+		}
+		nd, err := te.RenderTemplateToDocument("t"+tok, document.NewTemplateData())
+		if err != nil || nd == nil {
+			return "err"
+		}
+		*d = nd
 	case "RemoveNote":
 		if op.Str("k") == "fn" {
 			return errRet(doc.RemoveFootnote(strconv.Itoa(op.Int("id"))))
@@ -241,19 +270,15 @@ func defsEmptyPkg() map[string]interface{} {
 		"noterefs": []map[string]interface{}{}, "notes": []map[string]interface{}{}}
 }
 
-var defsTmp string
-
 // defsSave writes the document the requested way and returns the bytes ("" = fine).
 func defsSave(d *document.Document, how string) ([]byte, string) {
 	if how == "Save" {
-		if defsTmp == "" {
-			dir, err := os.MkdirTemp("", "wzh-defs-")
-			if err != nil {
-				return nil, "tmpdir"
-			}
-			defsTmp = dir
+		dir, err := os.MkdirTemp("", "wzh-defs-")
+		if err != nil {
+			return nil, "tmpdir"
 		}
-		p := filepath.Join(defsTmp, "out.docx")
+		defer os.RemoveAll(dir)
+		p := filepath.Join(dir, "out.docx")
 		if err := d.Save(p); err != nil {
 			return nil, "save-err"
 		}
